@@ -40,6 +40,7 @@ from mashumaro.core.meta.helpers import (
     is_final,
     is_generic,
     is_literal,
+    literal_repr,
     is_named_tuple,
     is_new_type,
     is_not_required,
@@ -279,18 +280,21 @@ class LiteralUnpackerBuilder(AbstractUnpackerBuilder):
                     spec.copy(type=bytes, expression="value")
                 )
                 with lines.indent("try:"):
-                    with lines.indent(f"if {unpacker} == {literal_value!r}:"):
-                        lines.append(f"return {literal_value!r}")
+                    with lines.indent(
+                        f"if {unpacker} == {literal_repr(literal_value)}:"
+                    ):
+                        lines.append(f"return {literal_repr(literal_value)}")
                 lines.append("except Exception: pass")
             elif isinstance(
                 literal_value,
                 (int, str, bool, NoneType),  # type: ignore
             ):
                 with lines.indent(
-                    f"if value.__class__ is ({literal_value!r}).__class__ "
-                    f"and value == {literal_value!r}:"
+                    "if value.__class__ is "
+                    f"({literal_repr(literal_value)}).__class__ "
+                    f"and value == {literal_repr(literal_value)}:"
                 ):
-                    lines.append(f"return {literal_value!r}")
+                    lines.append(f"return {literal_repr(literal_value)}")
         lines.append("raise ValueError(value)")
 
 
